@@ -217,6 +217,49 @@ def guarded_by_call(bf, bb, suffix):
     return any(cond_mentions_call(bf, c_, suffix) and not cond_false(c_) for c_ in path_conditions(bf, bb))
 
 
+def cond_implies_call_true(bf, cnd, suffix, depth=0):
+    """does the branch condition (taken with its recorded polarity) hold only if a call to `suffix` returned true /
+    Some / Ok? Unlike cond_mentions_call this is a must-rule: a flag that can also become true on a path that does
+    not take the call's result (`a == b || validate(..)`) does not qualify."""
+    t, val = cnd[0], cnd[1]
+
+    def is_the_call(x):
+        x = layout_peel(x)
+        return isinstance(x, tuple) and len(x) >= 3 and x[0] == 'call' and isinstance(x[1], str) and x[1].endswith(suffix)
+    if cond_false(cnd):
+        return False
+    if is_the_call(t):
+        return True
+    if isinstance(t, tuple) and t and t[0] == 'discr' and is_the_call(t[1]):
+        return val in ((1,), ('not', (0,)))     # Some / true; (Result: Ok is 0 - not used with this helper)
+    if isinstance(t, tuple) and t and t[0] == 'call' and t[1].endswith('is_some') and is_the_call(t[2][0]):
+        return True
+    if depth > 4 or not (isinstance(t, tuple) and len(t) == 2 and t[0] == 'phi'):
+        return False
+    n_call = 0
+    for (v, cs, bb) in rules.defs_with_conditions(bf, t[1]):
+        if v in (('const', 0), ('const', False)):
+            continue
+        if is_the_call(v):
+            n_call += 1
+            continue
+        if isinstance(v, tuple) and len(v) == 2 and v[0] == 'phi' and cond_implies_call_true(bf, (v, val), suffix, depth + 1):
+            n_call += 1
+            continue
+        return False
+    return n_call > 0
+
+
+def layout_peel(t):
+    while isinstance(t, tuple) and t and t[0] in ('ref', 'deref') and len(t) == 2:
+        t = t[1]
+    return t
+
+
+def must_guarded_by_call(bf, bb, suffix):
+    return any(cond_implies_call_true(bf, c_, suffix) for c_ in path_conditions(bf, bb))
+
+
 def stores_through(prog, adt_suffix, field, crate='lorawan_device'):
     """(body, bb, si, stmt) for every store whose place goes through field `field` of an ADT ending in adt_suffix
     (element stores `self.channels[i] = ..` included)"""
@@ -304,7 +347,15 @@ def flow_rules(c, res, an):
                     res.require(d_ok, 'C04:%s:data_rate-store-undefined-rate' % fn, 'store to data_rate is not guarded by the region defining that rate',
                                 short_site(bf, bb, si), 'DOM(get_datarate(dr).is_some() => store data_rate)', instance='%s: data_rate store guarded by get_datarate' % fn)
                     # usable: the (mask, data rate) pair was validated - the retry loops of select_tx_channel rely on it
-                    m_ok = guarded_by_call(bf, bb, 'channel_mask_validate')
+                    m_ok = must_guarded_by_call(bf, bb, 'channel_mask_validate')
+                    if m_ok:
+                        # ... and it is this rate that was validated: channel_mask_validate(_, X) with the store writing X's payload
+                        v = layout_peel(term_of_operand(bf, st.rv.ops[0])) if st.rv.k == 'use' else None
+                        vals = [layout_peel(term_of_operand(bf, t_.args[2])) for b_, t_ in bf.calls_to('channel_mask_validate')]
+                        same = v is not None and any(v == ('field', ('as', x, 'Some'), '0') for x in vals)
+                        res.require(same, 'C04:%s:data_rate-validated-for-other-rate' % fn,
+                                    'the data rate stored (%s) is not the one channel_mask_validate was asked about (%s)' % (term_str(v) if v else None, [term_str(x) for x in vals]),
+                                    short_site(bf, bb, si), 'SAME-VALUE(validated rate = stored rate)', instance='%s: the stored data rate is the validated one' % fn)
                     res.require(m_ok, 'C04:%s:data_rate-store-without-mask-validation' % fn,
                                 'data_rate is changed without channel_mask_validate(mask, new rate): on fixed plans the new rate can select a bandwidth class with no enabled channel '
                                 '(select_tx_channel then never returns)', short_site(bf, bb, si), 'VALIDATE-BEFORE-WRITE(data_rate)',
@@ -330,7 +381,7 @@ def flow_rules(c, res, an):
         if fn == 'region::Configuration::channel_mask_set':
             continue   # dispatch wrapper
         n_set += 1
-        res.require(guarded_by_call(bf, bb, 'channel_mask_validate'), 'C04:%s:channel_mask_set-without-validate' % short(fn),
+        res.require(must_guarded_by_call(bf, bb, 'channel_mask_validate'), 'C04:%s:channel_mask_set-without-validate' % short(fn),
                     'a channel mask is installed without channel_mask_validate: a mask with no usable channel makes select_tx_channel spin forever',
                     short_site(bf, bb), 'VALIDATE-BEFORE-WRITE(channel mask)', instance='%s: channel_mask_set after channel_mask_validate' % short(fn))
     if n_set < 2:
@@ -351,7 +402,7 @@ def flow_rules(c, res, an):
             continue
         n_rm += 1
         fn = short(body.path)
-        res.require(guarded_by_call(bf, bb, 'channel_mask_validate'), 'C04:%s:channel-removed-without-revalidation' % fn,
+        res.require(must_guarded_by_call(bf, bb, 'channel_mask_validate'), 'C04:%s:channel-removed-without-revalidation' % fn,
                     'a channel is removed from the plan without checking that an enabled, defined channel remains (the data retry loop of select_tx_channel never ends otherwise)',
                     short_site(bf, bb, si), 'VALIDATE-BEFORE-WRITE(channel removal)', instance='%s: removal re-validated' % fn)
     for bf, bb, t in pf.callers_of('ChannelMask::set_channel', crates={'lorawan_device'}):
@@ -409,6 +460,7 @@ def run(tier):
     classes = {}
     deleg = {}
     per_group = {}
+    group_sites = {}
     for o in sorted(obl, key=lambda o: o.key()):
         if not o.bad:
             n_ok += 1
@@ -427,11 +479,13 @@ def run(tier):
             classes.setdefault(cls, []).append({'site': o.key(), 'reason': why})
             grp = '%s:%s:%s' % (short(o.fn), o.kind, o.desc)
             per_group[grp] = per_group.get(grp, 0) + 1
+            group_sites.setdefault(grp, []).append('#%d (%s): %s' % (o.ord, o.span, ((o.detail or {}).get('why') or '')[:160]))
     # a classified group may not grow: a *new* undischarged site of the same kind in the same function is a violation
     for grp, n in sorted(per_group.items()):
         lim = GROUP_LIMITS.get(grp)
         res.require(lim is not None and n <= lim, 'C04:%s:new-undischarged-site' % grp,
-                    '%d undischarged sites in this group, %s reviewed: a new panic-capable site appeared that the classification was not written for' % (n, lim),
+                    '%d undischarged sites in this group, %s reviewed: a panic-capable site that the classification was not written for is no longer discharged; sites: %s' % (
+                        n, lim, '; '.join(group_sites.get(grp, []))),
                     grp, 'OBLIGATION(group ceiling)', instance='%s: %d undischarged site(s), all reviewed' % (grp, n))
     res.coverage['undischarged_per_group'] = per_group
     if len(obl) < 350:
